@@ -212,3 +212,16 @@ Proof.
   replace (Loader.blen buf <? n) with false by (symmetry; apply N.ltb_ge; rewrite Hlen; lia).
   reflexivity.
 Qed.
+
+(* ---------- trailer ---------- *)
+(* the trailer keyword and dictionary written by write_trailer are read back by parser::trailer *)
+Theorem trailer_rt t rest :
+  obj_wf (ODict t) -> (nest (ODict t) <= MAX_DEPTH)%nat ->
+  Xref.trailer (trailer_bytes t ++ rest) = POk (norm_dict t) (space rest).
+Proof.
+  intros Hw Hn. unfold Xref.trailer, trailer_bytes, write_dictionary.
+  rewrite <- app_assoc. rewrite ptag_app. cbn [pbind app]. rewrite space_lf.
+  rewrite space_tok by (rewrite write_dict_eq; reflexivity).
+  rewrite (dictionary_entry_rt t rest _ Hw); [reflexivity | | exact Hn].
+  unfold fuel_for. rewrite !app_length. cbn [length]. rewrite app_length. lia.
+Qed.
